@@ -134,6 +134,28 @@ def mc_layer_b(wd, tag="b", deep=False):
     return out
 
 
+def mc_device(wd):
+    """design-level model of C09 (Device.tla): straight-line propagation and the chain-freeing loop over a latching iterator"""
+    cfg = "SPECIFICATION Spec\nCONSTANT ChainLen = %d\nCONSTANT Budget = 60\nCONSTANT Legacy = FALSE\nINVARIANT WithinBudget\nINVARIANT Surfaced\nPROPERTY Terminates\nCHECK_DEADLOCK FALSE\n" % scale(6, 12)
+    r = core.mc_run("Device", cfg, wd, "device", workers=2)
+    if not r["ok"]:
+        raise core.ToolError("Device model checking failed:\n" + r["out_tail"])
+    r.pop("out_tail", None)
+    r.pop("progs", None)
+    return r
+
+
+def mc_durable(wd):
+    """design-level model of C14 (Durable.tla): entry write-back then storage flush is sufficient on a write-back cache honouring flush"""
+    cfg = "SPECIFICATION Spec\nCONSTANT MaxWrites = %d\nCONSTANT Skip = {}\nINVARIANT Durable\nCHECK_DEADLOCK FALSE\n" % scale(5, 9)
+    r = core.mc_run("Durable", cfg, wd, "durable", workers=2)
+    if not r["ok"]:
+        raise core.ToolError("Durable model checking failed:\n" + r["out_tail"])
+    r.pop("out_tail", None)
+    r.pop("progs", None)
+    return r
+
+
 def units_str(u):
     return "".join(chr(x) for x in u)
 
@@ -234,6 +256,13 @@ def c05():
     res.append(("fill", core.campaign("fill", fam_fill("C05", ["K1", "K1b", "K2"], scale(12, 120)), wd)))
     res.append(("ns", core.campaign("ns", fam_ns("C05", ["K1", "K5"], scale(15, 150), 50, stats_p=0.10), wd)))
     res.append(("io", core.campaign("io", fam_io("C05", ["K1b", "K5"], scale(10, 100), 50), wd)))
+    rng = rng_for("C05", 7)
+    sess = [gen.first_mutation_program(rng, "c05-first-%s-%d" % (k, i), gen.K(k), CS[k]) for k in ("K5", "K5b", "K1b") for i in range(scale(4, 40))]
+    sess += [gen.with_remounts(p, rng, 3) for p in fam_fill("C05", ["K5"], scale(4, 40), salt=3) + fam_ns("C05", ["K5", "K5b"], scale(6, 60), 50, salt=3)]
+    for i in range(scale(6, 60)):
+        vol, cs = gen.end_of_table_volume(rng, rng.choice([12, 16, 32]))
+        sess.append(gen.fill_program(rng, "c05-eot-%d" % i, {"vol": vol}, cs, rounds=1, chunk_clusters=(1, 2), use_dirs=False))
+    res.append(("sessions", core.campaign("sessions", sess, wd)))
     core.finish("C05", LEVEL, res, mc_layer_b(wd), t0,
                 "fill-to-full / delete-all cycles on tiny volumes plus mixed programs with statistics probes; TLC compares the reported count with the "
                 "table of the raw image and judges every NotEnoughSpace against the pre-state",
@@ -262,7 +291,7 @@ def fam_ro(prop, kset, n_prog, n_ops, salt=0):
             elif variant == 4:
                 poke = [[status_off(kname), [rng.choice([1, 2, 3])]]]  # dirty / io-error bits set by someone else
             progs.append(gen.ro_program(rng, "ro-%s-%d" % (kname, i), cfg, CS[kname], n_ops, end_setup=end_setup, poke=poke,
-                                        end=rng.choice(["unmount", "dropfs"])))
+                                        end=rng.choice(["unmount", "dropfs"]), no_stats=(i % 12 >= 6)))
     return progs
 
 
@@ -270,7 +299,7 @@ def c13():
     t0 = time.time()
     wd = workdir("C13")
     res = []
-    res.append(("ro", core.campaign("ro", fam_ro("C13", ["K1b", "K3", "K5"], scale(30, 300), 40), wd)))
+    res.append(("ro", core.campaign("ro", fam_ro("C13", ["K1b", "K3", "K5"], scale(36, 360), 40), wd)))
     core.finish("C13", LEVEL, res, None, t0,
                 "populated FAT12/16/32 volumes (clean, abandoned-dirty, FSInfo count/hint unknown, foreign status bits), then sessions of non-mutating "
                 "calls only; TLC checks that no device write is issued (FSInfo exemption after statistics without a usable count)",
@@ -304,6 +333,9 @@ def c12():
             progs.append(p)
     res = [("status", core.campaign("status", progs, wd))]
     res.append(("ro", core.campaign("ro", fam_ro("C12", ["K1b", "K5"], scale(10, 100), 25), wd)))
+    first = [gen.first_mutation_program(rng, "c12-first-%s-%d" % (k, i), gen.K(k), CS[k], end=rng.choice(["unmount", "abandon", "dropfs"]))
+             for k in ("K1b", "K3", "K5") for i in range(scale(4, 40))]
+    res.append(("first-mutation", core.campaign("first-mutation", first, wd)))
     core.finish("C12", LEVEL, res, None, t0,
                 "namespace and file-I/O histories on volumes whose status byte at mount is clean/dirty/io-error/has reserved bits; after every call TLC "
                 "checks dirty-bit bracketing of structural changes (computed from raw-image diffs), bits never cleared, restoration at unmount/drop, and "
@@ -336,7 +368,7 @@ def c09():
             q["id"] = "%s.%d" % (p["id"], j)
             parts.append(q)
     res = [("faults", core.campaign("faults", parts, wd, spec="TraceFault", mode="faults", n_shards=min(len(parts), 14), jvms=6))]
-    core.finish("C09", "fault_enumeration", res, None, t0,
+    core.finish("C09", "fault_enumeration", res, mc_device(wd), t0,
                 "for every operation of representative and random histories on FAT12/16/32, every position k of its device-call sequence is failed once "
                 "(exhaustive single-fault enumeration, device-call budget for non-termination); TLC judges each outcome with TraceFault; distinct = "
                 "(operation, outcome, failing call kind, in-destructor) shapes",
@@ -353,7 +385,7 @@ def c14():
         for i in range(scale(12, 120)):
             progs.append(gen.crash_program(rng, "crash-%s-%d" % (kname, i), gen.K(kname), CS[kname]))
     res = [("crash", core.campaign("crash", progs, wd))]
-    core.finish("C14", "fault_enumeration", res, None, t0,
+    core.finish("C14", "fault_enumeration", res, mc_durable(wd), t0,
                 "histories with flush/close points followed by unrelated activity; for every prefix of the device write log after the first flush the "
                 "image left by a power cut is mounted afresh; TLC (TraceFatFs crash events) requires every file flushed before that point and not "
                 "modified since to be found with exactly the flushed content; distinct = (op, result) shapes incl. crash events",
@@ -451,6 +483,9 @@ def c18():
     for i in range(0, len(triples), per):
         progs.append(gen.stamp_program(rng, "stamp-%d" % (i // per), gen.K("K1b") if (i // per) % 2 else gen.K("K5"), triples[i:i + per]))
     for i in range(scale(30, 300)):
+        a, b, c = gen.near_stamps(rng, 12), gen.near_stamps(rng, 12), gen.near_stamps(rng, 12)
+        progs.append(gen.stamp_program(rng, "near-%d" % i, gen.K("K1b") if i % 2 else gen.K("K5"), list(zip(a, b, c))))
+    for i in range(scale(30, 300)):
         kname = rng.choice(["K1b", "K2", "K5"])
         progs.append(gen.clock_program(rng, "clock-%d" % i, gen.K(kname), CS[kname], 30, atime=(i % 2 == 0)))
     res = [("stamps", core.campaign("stamps", progs, wd, n_shards=14))]
@@ -516,6 +551,9 @@ def c10():
         progs.append(gen.ns_program(rng, "c10-ns32-%d" % i, {"vol": vol}, 30, gen.NAMES_ASCII))
         vol, cs = small_foreign(rng, 16)
         progs.append(gen.io_program(rng, "c10-io16-%d" % i, {"vol": vol}, cs, 30))
+    for i in range(scale(12, 120)):
+        vol, cs = gen.end_of_table_volume(rng, [12, 16, 32][i % 3])
+        progs.append(gen.fill_program(rng, "c10-eot-%d" % i, {"vol": vol}, cs, rounds=1, chunk_clusters=(1, 2), use_dirs=(i % 2 == 0)))
     res = [("copies", core.campaign("copies", progs, wd, n_shards=14))]
     res.append(("own", core.campaign("own", fam_fill("C10", ["K1b", "K2"], scale(4, 40)) + fam_ns("C10", ["K5", "K5b"], scale(6, 60), 40), wd)))
     core.finish("C10", LEVEL, res, None, t0,
@@ -541,6 +579,10 @@ def c11():
     for i in range(scale(6, 60)):
         vol, cs = small_foreign(rng, 12)
         progs.append(gen.fill_program(rng, "c11-fill-%d" % i, {"vol": vol, "short": rng.choice([0, rng.randrange(1, 1 << 30)])}, cs, rounds=2))
+    for i in range(scale(12, 120)):
+        vol, cs = gen.end_of_table_volume(rng, [12, 16, 32][i % 3])
+        progs.append(gen.fill_program(rng, "c11-eot-%d" % i, {"vol": vol, "short": rng.choice([0, 0, rng.randrange(1, 1 << 30)])}, cs, rounds=1,
+                                      chunk_clusters=(1, 2), use_dirs=(i % 2 == 0)))
     res = [("writes", core.campaign("writes", progs, wd, n_shards=14))]
     core.finish("C11", LEVEL, res, None, t0,
                 "every device write of namespace, file-I/O and fill histories on own and builder volumes embedded in a larger device (guard bytes after the "
@@ -559,6 +601,9 @@ def c20():
     for k in kinds:
         for h in hints:
             progs.append(gen.large_program(rng, "large-%s-%s" % (k, h), k, h))
+    for i in range(scale(9, 60)):
+        vol, cs = gen.end_of_table_volume(rng, 32)
+        progs.append(gen.fill_program(rng, "c20-eot-%d" % i, {"vol": vol}, cs, rounds=1, chunk_clusters=(1, 2, 3), use_dirs=False))
     res = [("large", core.campaign("large", progs, wd, n_shards=14))]
     core.finish("C20", LEVEL, res, None, t0,
                 "sparse builder volumes of 4 GiB, 1 TiB+, 2 TiB-512 B (512-byte sectors) and the FAT32 cluster limit with 4096-byte sectors, next-free hint "
@@ -675,6 +720,135 @@ def replay(path):
         print(e)
 
 
+SELFTEST_PROG = {"id": "golden", "cfg": {"vol": gen.fmt(40960, bpc=512, fats=2, root=16)}, "ops": [
+    {"op": "create_dir", "at": "", "path": "dir1"},
+    {"op": "create_file", "at": "", "path": "dir1/Hello World.txt", "as": "h1"},
+    {"op": "write_all", "h": "h1", "pat": 3, "len": 700},
+    {"op": "flush", "h": "h1"},
+    {"op": "seek", "h": "h1", "from": "start", "off": 510},
+    {"op": "read", "h": "h1", "len": 10},
+    {"op": "stats"},
+    {"op": "close", "h": "h1"},
+    {"op": "rename", "at": "", "src": "dir1/hello world.TXT", "to": "", "dst": "x.bin"},
+    {"op": "list", "at": "", "path": ""},
+    {"op": "remove", "at": "", "path": "dir1"},
+    {"op": "unmount"}]}
+
+
 def selftest(args):
-    core.log("selftest: not built yet")
-    sys.exit(2)
+    """demonstrates the binding: an unaltered recorded trace is accepted, every single-field corruption of it is rejected with the expected
+    clause, and every historical behaviour of the code (Legacy flags of FatFsB) yields a TLC counterexample"""
+    wd = os.path.join(core.WORK, "selftest")
+    shutil.rmtree(wd, ignore_errors=True)
+    os.makedirs(wd)
+    binp = core.build("ref")
+    pf = os.path.join(wd, "g.ndjson")
+    ef = os.path.join(wd, "golden.ndjson")
+    with open(pf, "w") as f:
+        f.write(json.dumps(SELFTEST_PROG) + "\n")
+    core.run_harness(binp, pf, ef)
+    events = [json.loads(l) for l in open(ef)]
+
+    def idx(op, nth=1):
+        k = 0
+        for i, e in enumerate(events):
+            if e["op"] == op:
+                k += 1
+                if k == nth:
+                    return i
+        raise KeyError(op)
+
+    def mutate(fn):
+        ev = json.loads(json.dumps(events))
+        fn(ev)
+        return ev
+
+    def m_result(ev):
+        ev[idx("create_file")]["r"] = {"k": "err", "e": "NotFound"}
+
+    def m_fat(ev):
+        e = ev[idx("flush")]
+        e["raw"]["fats"][0]["m"]["3"] = 3  # a cluster linking to itself, in one copy only
+
+    def m_chk(ev):
+        e = ev[idx("create_file")]
+        for d in e["raw"]["dirs"]:
+            for s in d["sl"]:
+                if s["t"] == "L":
+                    s["k"] = (s["k"] + 1) % 256
+                    return
+
+    def m_status(ev):
+        ev[idx("create_dir")]["raw"]["st"] = 0
+
+    def m_devw(ev):
+        ev[idx("create_dir")]["w"].append({"r": "rsvd", "s": 3})
+
+    def m_stats(ev):
+        ev[idx("stats")]["r"]["free"] += 1
+
+    def m_read(ev):
+        ev[idx("read")]["r"]["d"][0] ^= 1
+
+    def m_rv(ev):
+        e = ev[idx("flush")]
+        e["rv"]["tree"] = e["rv"]["tree"][:-1]
+
+    def m_size(ev):
+        e = ev[idx("flush")]
+        for d in e["raw"]["dirs"]:
+            for s in d["sl"]:
+                if s["t"] == "S" and s.get("sz", 0) == 700:
+                    s["sz"] = 1700
+
+    def m_dotdot(ev):
+        e = ev[idx("create_dir")]
+        e["raw"]["dirs"][1]["sl"][1]["cl"] = 7
+
+    def m_alias(ev):
+        e = ev[idx("create_file")]
+        for d in e["raw"]["dirs"]:
+            for s in d["sl"]:
+                if s["t"] == "S" and s["n"][0] == 72:
+                    s["n"][0] = 104  # lower-case letter in an alias (the long-name slots carry the matching checksum)
+                    c = 0
+                    for x in s["n"]:
+                        c = (((c & 1) << 7) + (c >> 1) + x) & 0xFF
+                    for t in d["sl"]:
+                        if t["t"] == "L":
+                            t["k"] = c
+
+    cases = [("unaltered", None, set()), ("result kind", m_result, {"C01.result"}), ("one FAT entry", m_fat, {"C10.mirror", "C03.fat_cycle"}),
+             ("LFN checksum", m_chk, {"C03.lfn_chk"}), ("status byte", m_status, {"C12.bracket"}), ("device-write segment", m_devw, {"C11.region"}),
+             ("statistics", m_stats, {"C05.stats"}), ("read data", m_read, {"C02.read_bytes"}), ("remount listing", m_rv, {"C04.remount"}),
+             ("recorded size", m_size, {"C03.chain_size"}), ("dot-dot cluster", m_dotdot, {"C03.dotdot"}), ("alias byte", m_alias, {"C16.legal"})]
+    ok = True
+    for name, fn, want in cases:
+        ev = mutate(fn) if fn else events
+        tf = os.path.join(wd, "t.ndjson")
+        with open(tf, "w") as f:
+            for e in ev:
+                f.write(json.dumps(e, separators=(",", ":")) + "\n")
+        r = core.run_tlc(os.path.join(core.SPEC, "TraceFatFs.tla"), os.path.join(core.SPEC, "TraceFatFs.cfg"),
+                         {"TRACE": tf, "FOLD": "unicode", "FOLDTAB": os.path.join(core.WORK, "fold.json")}, wd, "st")
+        got = {f[0] for k, f in r["lines"] if k == "VIOL"}
+        good = r["ok"] and (want <= got if want else not got)
+        ok = ok and good
+        print("%-22s expected %-32s got %-60s %s" % (name, sorted(want) or "-", sorted(got) or "-", "ok" if good else "MISSED"))
+    legacy = {"rename_delete_first": "Refines", "no_dotdot_update": "StructInv", "no_capacity_check": "StructInv", "no_rollback": "StructInv",
+              "create_dir_leak": "StructInv", "rename_into_self": "Refines", "hint_past_end": "HintInRange"}
+    for flag, prop in legacy.items():
+        r = core.mc_run("FatFsB", MC_B_CFG % (4, 6, 4, '{"%s"}' % flag), wd, "legacy")
+        good = (not r["ok"]) and prop in r["violated"]
+        ok = ok and good
+        print("FatFsB Legacy=%-22s expected counterexample to %-12s %s" % (flag, prop, "ok" if good else "MISSED"))
+    for skip in ('{"entry"}', '{"devflush"}'):
+        r = core.mc_run("Durable", "SPECIFICATION Spec\nCONSTANT MaxWrites = 3\nCONSTANT Skip = %s\nINVARIANT Durable\nCHECK_DEADLOCK FALSE\n" % skip, wd, "dur")
+        good = (not r["ok"]) and "Durable" in r["violated"]
+        ok = ok and good
+        print("Durable Skip=%-14s expected counterexample to Durable %s" % (skip, "ok" if good else "MISSED"))
+    r = core.mc_run("Device", "SPECIFICATION Spec\nCONSTANT ChainLen = 4\nCONSTANT Budget = 40\nCONSTANT Legacy = TRUE\nINVARIANT WithinBudget\nINVARIANT Surfaced\nCHECK_DEADLOCK FALSE\n", wd, "dev")
+    good = (not r["ok"]) and "WithinBudget" in r["violated"]
+    ok = ok and good
+    print("Device Legacy=TRUE        expected counterexample to WithinBudget %s" % ("ok" if good else "MISSED"))
+    sys.exit(0 if ok else 1)
